@@ -1378,6 +1378,26 @@ def sign_notes(w, r, path, notes):
             sign_notes(a[2], b[2], path, notes)
 
 
+def first_diff(a, b, path=""):
+    """first position where two resolved item lists differ (for the report)"""
+    for i in range(max(len(a), len(b))):
+        if i >= len(a) or i >= len(b):
+            return "%sitem %d: %s" % (path, i, "only written: %r" % (a[i][:3],) if i < len(a) else "only read: %r" % (b[i][:3],))
+        x, y = a[i], b[i]
+        if x[0] != y[0]:
+            return "%sitem %d: written %r, read %r" % (path, i, x[:3], y[:3])
+        if x[0] == "prim":
+            if x[1:3] != y[1:3]:
+                return "%sitem %d: written as %s (%d bytes: %s), read as %s (%d bytes: %s)" % (path, i, x[1], x[2], x[4], y[1], y[2], y[4])
+        else:
+            if x[1] != y[1]:
+                return "%sloop %d: count written %r (%s), read %r (%s)" % (path, i, x[1], x[3], y[1], y[3])
+            d = first_diff(x[2], y[2], path + "loop %d / " % i)
+            if d:
+                return d
+    return None
+
+
 def lean_name(c):
     return re.sub(r"\W", "_", c).strip("_")
 
@@ -1456,6 +1476,7 @@ def generate(out_path=OUT):
                 macros={k: v for k, v in gen.defined.items()}, factories=facs,
                 prims={n: (flat_prims(p["write"]), flat_prims(p["read"])) for n, p in schemas.items()},
                 equal={n: p["write_eq_read"] for n, p in schemas.items()},
+                diff={n: first_diff(p["write"], p["read"]) for n, p in schemas.items() if not p["write_eq_read"]},
                 derived={k: v for k, v in derived.items() if k != "cellcount_locals"}, files=sorted(gen.files))
     return info
 
